@@ -16,6 +16,12 @@ EXC_DISCHARGE = [
     dict(fn="spil.util.caching.hit_cache.<locals>.wrapper", text="cache[key]", exc="LookupError",
          why="reached only when the key was present or has just been stored (falsy results return early)",
          cond="memo_store_then_read"),
+    # ---- the factory trampoline --------------------------------------------------------------------
+    dict(fn="spil.sid.sid.BaseSid.__new__", text="importlib.import_module(mod)", exc="ImportError",
+         why="mod is the first element of the class constant _factory, which names a module of the program",
+         cond="factory_resolves"),
+    dict(fn="spil.sid.sid.BaseSid.__new__", text="getattr(mod, fn)", exc="AttributeError",
+         why="fn is the second element of _factory, a function defined in that module", cond="factory_resolves"),
     # ---- SpilException construction ----------------------------------------------------------------
     dict(fn="spil.util.exception.SpilException.__init__", text="args[0]", exc="LookupError",
          why="every SpilException(...) in the program passes a message argument", cond="spilexception_has_arg"),
